@@ -53,3 +53,201 @@ def extra_years_arg(window=45):
 # step counts that are multiples of the cycle lengths in play (7 days, 10 stems, 12 branches / months, 13 lunar months, 24 terms,
 # 60 pillars, 235 lunations of the 19-year cycle, 365/366 days) and their neighbours — for every stepping request generator
 CYCLE_STEPS = sorted(set(s * k + o for s in (7, 10, 12, 13, 24, 60, 235, 365, 366) for k in (1, 2, 5, -1, -2, -5) for o in (0, 1, -1)))
+
+
+# ---------------------------------------------------------------------------------------------------------------------
+# equality glue: the library's own `==` / `!=` on two values built from numbers (harness peq.rs, driver PEq.lean).
+# Only numbers of values that EXIST are sent (the model answers by comparing the numbers), and the second value differs
+# from the first in exactly one field, in all fields, or in none.
+EQ_KINDS = {1: "SolarDay", 2: "SolarMonth", 3: "SolarYear", 4: "SolarTime", 5: "SolarWeek", 6: "LunarYear", 7: "LunarMonth", 8: "LunarDay",
+            9: "LunarHour", 10: "LunarWeek", 11: "EightChar", 12: "JulianDay", 13: "SixtyCycleYear", 14: "ChildLimit", 15: "Fortune",
+            16: "DecadeFortune", 17: "SolarHalfYear", 18: "SolarSeason"}
+N_CYC_TYPES = 42
+_MONTHS = None
+
+
+def _civil_ok(y, m, d):
+    if not (1 <= y <= 9999 and 1 <= m <= 12 and d >= 1):
+        return False
+    leap = (y % 4 == 0) if y < 1582 or (y == 1582 and m < 10) else (y % 4 == 0 and (y % 100 != 0 or y % 400 == 0))
+    ml = [31, 29 if leap else 28, 31, 30, 31, 30, 31, 31, 30, 31, 30, 31][m - 1]
+    if d > ml:
+        return False
+    return not (y == 1582 and m == 10 and 4 < d < 15)
+
+
+def _lunar_months():
+    """(year, signed month) -> day count, from this run's month dump (None when the property has no ephemeris dump)"""
+    global _MONTHS
+    if _MONTHS is None:
+        import os
+        root = os.path.dirname(os.path.abspath(__file__))
+        try:
+            _MONTHS = {}
+            for l in open(os.path.join(root, "build", "dump", "months.tsv")):
+                f = l.split()
+                if len(f) >= 4:
+                    _MONTHS[(int(f[0]), int(f[1]))] = int(f[3])
+        except OSError:
+            _MONTHS = {}
+    return _MONTHS
+
+
+def _eq_valid(kind, v):
+    t = lambda h, mi, s: 0 <= h <= 23 and 0 <= mi <= 59 and 0 <= s <= 59
+    lm = _lunar_months()
+    if kind == 1:
+        return _civil_ok(*v)
+    if kind == 2:
+        return 1 <= v[0] <= 9999 and 1 <= v[1] <= 12
+    if kind in (3, 13):
+        return 1 <= v[0] <= 9999
+    if kind in (4, 12):
+        return _civil_ok(*v[:3]) and t(*v[3:])
+    if kind == 5:
+        return 1 <= v[0] <= 9999 and 1 <= v[1] <= 12 and 0 <= v[2] <= 3 and 0 <= v[3] <= 6 and not (v[0] == 1582 and v[1] == 10)
+    if kind == 6:
+        return 1 <= v[0] <= 9998
+    if kind == 7:
+        return 2 <= v[0] <= 9997 and (v[0], v[1]) in lm
+    if kind == 8:
+        return 2 <= v[0] <= 9997 and 1 <= v[2] <= lm.get((v[0], v[1]), 0)
+    if kind == 9:
+        return 2 <= v[0] <= 9997 and 1 <= v[2] <= lm.get((v[0], v[1]), 0) and t(*v[3:])
+    if kind == 10:
+        return 2 <= v[0] <= 9997 and (v[0], v[1]) in lm and 0 <= v[2] <= 3 and 0 <= v[3] <= 6
+    if kind == 11:
+        return all(0 <= x <= 59 for x in v)
+    # births of 1571..1582 can be refused (known finding D22: the limit's calendar addition walks into October 1582)
+    if kind == 14:
+        return 300 <= v[0] <= 9900 and not 1570 <= v[0] <= 1583 and _civil_ok(*v[:3]) and t(*v[3:6]) and v[6] in (0, 1)
+    if kind in (15, 16):
+        return 300 <= v[0] <= 9900 and not 1570 <= v[0] <= 1583 and _civil_ok(*v[:3]) and t(*v[3:6]) and v[6] in (0, 1) and 0 <= v[7] <= 9
+    if kind == 17:
+        return 1 <= v[0] <= 9999 and 0 <= v[1] <= 1
+    if kind == 18:
+        return 1 <= v[0] <= 9999 and 0 <= v[1] <= 3
+    return False
+
+
+def _eq_rand(rng, kind):
+    tm = lambda: (rng.choice([0, 23, rng.randint(0, 23)]), rng.choice([0, 59, rng.randint(0, 59)]), rng.choice([0, 59, rng.randint(0, 59)]))
+    lm = _lunar_months()
+    if kind == 1:
+        return rand_date(rng)
+    if kind == 2:
+        return (rng.randint(1, 9999), rng.randint(1, 12))
+    if kind in (3, 13):
+        return (rng.randint(1, 9999),)
+    if kind in (4, 12):
+        return rand_date(rng) + tm()
+    if kind == 5:
+        return (rng.randint(1, 9999), rng.randint(1, 12), rng.randint(0, 3), rng.randint(0, 6))
+    if kind == 6:
+        return (rng.randint(1, 9998),)
+    if kind in (7, 8, 9, 10):
+        if not lm:
+            return None
+        y = rng.randint(2, 9997)
+        ms = [k[1] for k in lm if k[0] == y] if rng.random() < 0.05 else None
+        leaps = [m for m in range(-12, 0) if (y, m) in lm]
+        m = rng.choice(leaps + [-leaps[0]]) if leaps and rng.random() < 0.6 else rng.randint(1, 12)
+        if ms:
+            m = rng.choice(ms)
+        if kind == 7:
+            return (y, m)
+        if kind == 10:
+            return (y, m, rng.randint(0, 3), rng.randint(0, 6))
+        d = rng.choice([1, lm[(y, m)], rng.randint(1, lm[(y, m)])])
+        return (y, m, d) if kind == 8 else (y, m, d) + tm()
+    if kind == 11:
+        return tuple(rng.randint(0, 59) for _ in range(4))
+    if kind == 14:
+        return rand_date(rng, 300, 9900) + tm() + (rng.randint(0, 1),)
+    if kind in (15, 16):
+        return rand_date(rng, 300, 9900) + tm() + (rng.randint(0, 1), rng.randint(0, 9))
+    if kind == 17:
+        return (rng.randint(1, 9999), rng.randint(0, 1))
+    if kind == 18:
+        return (rng.randint(1, 9999), rng.randint(0, 3))
+    return None
+
+
+def eq_ops(rng, tier, kinds=(), cyc_types=()):
+    """`eq.v` requests for the value kinds and `eq.cyc` requests for the LoopTyme type numbers"""
+    n = 40 if tier == "quick" else 600
+    L = []
+    for kind in kinds:
+        for _ in range(n):
+            a = _eq_rand(rng, kind)
+            if a is None or not _eq_valid(kind, a):
+                continue
+            bs = [a]
+            other = _eq_rand(rng, kind)
+            for p in range(len(a)):
+                for delta in (1, -1, None):
+                    if delta is None:
+                        if other is None or other[p] == a[p]:
+                            continue
+                        b = a[:p] + (other[p],) + a[p + 1:]
+                    else:
+                        b = a[:p] + (a[p] + delta,) + a[p + 1:]
+                    # lunar twin: the same month number with the other leap sign
+                    if _eq_valid(kind, b):
+                        bs.append(b)
+                if kind in (7, 8, 9, 10) and p == 1:
+                    b = a[:1] + (-a[1],) + a[2:]
+                    if _eq_valid(kind, b):
+                        bs.append(b)
+            if other is not None and _eq_valid(kind, other):
+                bs.append(other)
+            if kind in (5, 10):
+                # weeks are compared through their first day: two numberings can name one week; keep year and month fixed
+                bs = [b for b in bs if b[:2] == a[:2]]
+            if kind in (15, 16):
+                bs = [b for b in bs if b[:7] == a[:7]] + [b for b in bs if b[:7] != a[:7]][:2]
+            for b in bs:
+                L.append("eq.v %d %s %s" % (kind, " ".join(map(str, a)), " ".join(map(str, b))))
+    for t in cyc_types:
+        for _ in range(8 if tier == "quick" else 60):
+            i = rng.randint(-200, 200)
+            for j in (i, i + 1, i - 1, rng.randint(-200, 200), i + rng.choice([2, 5, 10, 12, 60]), -i):
+                L.append("eq.cyc %d %d %d" % (t, i, j))
+    return L
+
+
+def objhist_ops(rng, tier, kinds=(0, 1), n_quick=300, n_thorough=3000):
+    """read-step-read histories on ONE LunarHour (kind 0) / LunarDay (kind 1) value (op c10.objhist): a step or clone that carries
+    the source value's lazily filled memos over gives answers about the wrong day"""
+    L = []
+    for _ in range(n_quick if tier == "quick" else n_thorough):
+        y = rng.choice([rng.randint(300, 9700), rng.randint(1900, 2100)])
+        kind = rng.choice(list(kinds))
+        L.append("c10.objhist %d %d %d %d %d %d %d %d %d" % (kind, rng.randint(1, 10**9), rng.choice([2, 3, 4, 6, 10, 25]), y, rng.randint(1, 12), rng.randint(1, 29),
+                                                            rng.choice([0, 1, 11, 12, 21, 22, 23, rng.randint(0, 23)]), rng.randint(0, 59), rng.randint(0, 59)))
+    return L
+
+
+def dep_ops(rng, tier):
+    """the older (deprecated, public) pillar getters of LunarDay / LunarHour at random dates and instants"""
+    L = []
+    for _ in range(300 if tier == "quick" else 4000):
+        y, m, d = rand_date(rng, 27, 9990)
+        L.append("scd.dep %d %d %d" % (y, m, d))
+        L.append("sch.dep %d %d %d %d %d %d" % (y, m, d, rng.choice([0, 1, 12, 22, 23, rng.randint(0, 23)]), rng.randint(0, 59), rng.randint(0, 59)))
+    return L
+
+
+def with_extra(base, eq_kinds=(), eq_cyc=(), objhist=(), dep=False):
+    """the property's own request generator plus the glue requests shared between properties"""
+    def ops(rng, tier):
+        L = list(base(rng, tier))
+        L += eq_ops(rng, tier, eq_kinds, eq_cyc)
+        if objhist:
+            L += objhist_ops(rng, tier, objhist)
+        if dep:
+            L += dep_ops(rng, tier)
+        return L
+    ops.__name__ = getattr(base, "__name__", "ops")
+    ops.__doc__ = base.__doc__
+    return ops
